@@ -1,6 +1,7 @@
 import IpaVerif.Model.Util
 import IpaVerif.Model.SeqJoin
 import IpaVerif.Driver.C15V
+import IpaVerif.Driver.C15Mt
 /-! Line-protocol handlers for property C15 (model side). Import-free.
 
   c15.join <w> <n> <op>…     seq_join over a source with a budget; ops: `s<k>` source may yield k more
@@ -122,6 +123,8 @@ def join (l : List String) : String := String.intercalate " " l
 def handle (toks : List String) : Option String :=
   match toks with
   | "c15.vjoin" :: _ => C15V.handle toks
+  | "c15mt.src" :: _ => C15Mt.handle toks
+  | "c15mt.slow" :: _ => C15Mt.handle toks
   | "c15.vcollect" :: _ => C15V.handle toks
   | "c15.join" :: w :: n :: ops => some <| Id.run do
       let some w := w.toNat? | return "bad-request"
@@ -238,6 +241,8 @@ def joinOracleStep (w n : Nat) (o : JSt) (t resp : String) : JSt :=
 def oracle (toks : List String) (impl : String) : Option String :=
   match toks with
   | "c15.vjoin" :: _ => C15V.oracle toks impl
+  | "c15mt.src" :: _ => C15Mt.oracle toks impl
+  | "c15mt.slow" :: _ => C15Mt.oracle toks impl
   | "c15.vcollect" :: _ => C15V.oracle toks impl
   | "c15.join" :: w :: n :: ops => some <| Id.run do
       let some w := w.toNat? | return "unknown"
